@@ -2,6 +2,8 @@ package proto
 
 import (
 	"fmt"
+	"sort"
+	"strings"
 
 	"golang.org/x/tools/go/ssa"
 
@@ -123,7 +125,24 @@ func Check(p *load.Program, run *report.Run, b *Builder, rec map[string]string, 
 			if len(recvs) > 0 {
 				run.Violate("flush-before-receive", fk, p.Rel(side.f.Pos()), fmt.Sprintf("blocking %v reachable with unflushed sends", recvs), nil)
 			} else if dirtyExit && !side.exitOK {
-				run.Violate("flush-before-return", fk, p.Rel(side.f.Pos()), "the role can return successfully with unflushed sends", nil)
+				// the obligation passes to the callers: if every function of the module that calls this one
+				// flushes before it blocks or returns (its automaton, with this callee inlined, is clean), the
+				// unflushed tail is sent with the caller's next message
+				callers := staticCallers(p, side.f)
+				passed := len(callers) > 0
+				var names []string
+				for _, g := range callers {
+					rg, dg := FlushIssues(b.Automaton(g), false)
+					if len(rg) > 0 || dg {
+						passed = false
+					}
+					names = append(names, g.Name())
+				}
+				if passed {
+					run.OK("flush-discipline", fk, p.Rel(side.f.Pos()), fmt.Sprintf("returns with unflushed sends; every caller in the module (%v) flushes before it blocks or returns", names))
+				} else {
+					run.Violate("flush-before-return", fk, p.Rel(side.f.Pos()), "the role can return successfully with unflushed sends", nil)
+				}
 			} else {
 				run.OK("flush-discipline", fk, p.Rel(side.f.Pos()), "")
 			}
@@ -167,4 +186,27 @@ func noEmpty(n *NFA) *NFA {
 		}
 	}
 	return live(m)
+}
+
+// staticCallers lists the module functions (tests excluded) with a static call of f.
+func staticCallers(p *load.Program, f *ssa.Function) []*ssa.Function {
+	var out []*ssa.Function
+	for _, g := range p.AllFunctions() {
+		if g == f || !load.InModule(g) || g.Blocks == nil || strings.HasSuffix(p.Fset.Position(g.Pos()).Filename, "_test.go") || strings.Contains(g.Pkg.Pkg.Path(), "/apps/") {
+			continue
+		}
+		found := false
+		for _, b := range g.Blocks {
+			for _, ins := range b.Instrs {
+				if c, ok := ins.(ssa.CallInstruction); ok && c.Common().StaticCallee() == f {
+					found = true
+				}
+			}
+		}
+		if found {
+			out = append(out, g)
+		}
+	}
+	sort.Slice(out, func(i, j int) bool { return out[i].Pos() < out[j].Pos() })
+	return out
 }
